@@ -9,14 +9,22 @@ from .core import Prop, close, dec_list, enc, enc_list, exc_class
 FUNCS = ["mean", "median", "expectile", "quantile"]
 
 
-def call_elem(eta, f, level, y, z, w=None, mean=False):
+def call_elem(eta, f, level, y, z, w=None, mean=False, eta0=None, dtype=None):
+    """eta0: the scorer is constructed with another threshold and its public attribute eta is re-assigned before scoring;
+    dtype: observations / predictions in that numpy dtype (eta is then passed as given, e.g. a Python int)"""
     from model_diagnostics.scoring import ElementaryScore
 
     try:
-        sf = ElementaryScore(eta=eta, functional=f, level=level)
+        sf = ElementaryScore(eta=eta if eta0 is None else eta0, functional=f, level=level)
+        if eta0 is not None:
+            sf.score_per_obs(np.array(y, dtype=float), np.array(z, dtype=float))
+            sf.eta = eta
         if mean:
             return {"m": float(sf(np.array(y, dtype=float), np.array(z, dtype=float), None if w is None else np.array(w, dtype=float)))}
-        v = sf.score_per_obs(np.array(y, dtype=float), np.array(z, dtype=float))
+        if dtype is not None:
+            v = sf.score_per_obs(np.array(y).astype(dtype), np.array(z).astype(dtype))
+        else:
+            v = sf.score_per_obs(np.array(y, dtype=float), np.array(z, dtype=float))
     except Exception as e:
         return {"err": exc_class(e)}
     return {"v": [float(t) for t in np.asarray(v, dtype=float)]}
@@ -61,7 +69,19 @@ class C15(Prop):
             lv = rng.choice(ic.DYADIC_LEVELS[:9] + ic.DECIMAL_LEVELS[:7])
             if rng.random() < 0.04:
                 lv = rng.choice(["0", "1", "-1", "1.5"])
-            yield {"stream": "pairs", "f": f, "level": lv, "eta": str(eta), "y": [str(v) for v in ys], "z": [str(v) for v in zs]}
+            c = {"stream": "pairs", "f": f, "level": lv, "eta": str(eta), "y": [str(v) for v in ys], "z": [str(v) for v in zs]}
+            r = rng.random()
+            if r < 0.12:
+                # one scorer object moved along the thresholds: constructed with another eta, the attribute re-assigned
+                c["eta0"] = str(rng.choice(alpha))
+            elif r < 0.27:
+                # whole-numbered data in an unsigned / narrow / 64-bit integer container and eta given as a Python int
+                c["dtype"] = rng.choice(["uint8", "uint16", "uint32", "uint64", "int8", "int32", "int64", "bool"])
+                top = 1 if c["dtype"] == "bool" else 12
+                yi = [rng.randint(0, top) for _ in range(n)]
+                zi = [v if rng.random() < 0.25 else rng.randint(0, top) for v in yi]
+                c.update(y=[str(v) for v in yi], z=[str(v) for v in zi], eta=str(rng.choice(yi + zi + [rng.randint(0, top)])), int_eta=True)
+            yield c
         for k in range(500 if tier == "quick" else 8000):
             y, z = rng.choice(alpha), rng.choice(alpha)
             yield {"stream": "integral", "f": rng.choice(FUNCS), "level": rng.choice(ic.DYADIC_LEVELS[:9]), "y": [str(y)], "z": [str(z)], "eta": "0"}
@@ -106,7 +126,9 @@ class C15(Prop):
         lv = self._lv(case)
         f = case["f"]
         if case["stream"] == "pairs":
-            return call_elem(float(Fraction(case["eta"])), f, lv, ys, [float(Fraction(v)) for v in case["z"]])
+            eta = int(case["eta"]) if case.get("int_eta") else float(Fraction(case["eta"]))
+            return call_elem(eta, f, lv, ys, [float(Fraction(v)) for v in case["z"]],
+                             eta0=None if "eta0" not in case else float(Fraction(case["eta0"])), dtype=case.get("dtype"))
         if case["stream"] == "integral":
             y, z = Fraction(case["y"][0]), Fraction(case["z"][0])
             mid = (y + z) / 2
